@@ -20,7 +20,7 @@ TABLE = [
     ("ENCODE_TAG_LEN", _KS, r"output\.resize\(output\.len\(\) \+ \d+ \+ \d+ \+ (\d+) \+ \d+, 0\);", "int"),
     ("ENCODE_NONCE_LEN", _KS, r"output\.resize\(output\.len\(\) \+ \d+ \+ \d+ \+ \d+ \+ (\d+), 0\);", "int"),
     # key file: 20-byte header, 64-byte keys
-    ("FILE_HEADER_LEN", _KS, r"reader\.read_exact\(&mut buf\[0\.\.(\d+)\]\)\?;\s*let time", "int"),
+    ("FILE_HEADER_LEN", _KS, r"reader\.read_exact\(&mut buf\[0\.\.(\d+)\]\)\?;\s*(?://[^\n]*\s*)?let time", "int"),
     ("FILE_KEY_LEN", _KS, r"reader\.read_exact\(&mut buf\[0\.\.(\d+)\]\)\?;\s*keys\.push", "int"),
     ("FILE_MODE_OCTAL_DIGITS", _KP, r"\.mode\(0o(\d+)\)", "int"),
     ("PROVIDER_TRUNCATE", _KP, r"\.truncate\(true\)", "count"),
